@@ -3,9 +3,11 @@ from __future__ import annotations
 
 import os
 import sys
-from decimal import Decimal
+from decimal import Decimal, localcontext
+from fractions import Fraction
 
 from btclib import fee as fee_mod
+from btclib.amount import btc_from_sats, sats_from_btc, valid_sats_amount
 from btclib.fee import FeeRate, dust_threshold, fee_from_vsize, package_fee
 from btclib.psbt.psbt import Psbt, prevouts
 from btclib.psbt.psbt_in import PsbtIn
@@ -141,6 +143,30 @@ def _funding_call(t):
     return f"ok {built.fee} {built.change if built.change_index is not None else 'None'}", built, est
 
 
+def _dec(toks) -> Decimal:
+    if toks[0] == "N":
+        return Decimal("NaN")
+    if toks[0] == "I":
+        return Decimal("-Infinity" if toks[1] == "1" else "Infinity")
+    return Decimal((int(toks[1]), tuple(int(c) for c in toks[2]), int(toks[3])))
+
+
+def _dec_tokens(d: Decimal) -> str:
+    if d.is_nan():
+        return "N"
+    if d.is_infinite():
+        return f"I {1 if d.is_signed() else 0}"
+    sign, digits, exp = d.as_tuple()
+    return f"F {sign} {int(''.join(map(str, digits)) or '0')} {exp}"
+
+
+def _render_dec(d: Decimal) -> str:
+    sign, digits, exp = d.as_tuple()
+    if sign and any(digits):
+        return f"negative {d}"
+    return f"{int(''.join(map(str, digits)))} {exp}"
+
+
 def impl(line: str) -> str:
     t = line.split(" ")
     op = t[0]
@@ -158,6 +184,16 @@ def impl(line: str) -> str:
         return common.call_impl(lambda: is_segwit(unhx(t[1])))
     if op == "funding.build":
         return _funding_call(t)[0]
+    if op == "amount.sats_from_btc":
+        return common.call_impl(lambda: sats_from_btc(_dec(t[1:])))
+    if op == "amount.btc_from_sats":
+        return common.call_impl(lambda: btc_from_sats(int(t[1])), render=_render_dec)
+    if op == "feerate.from_vb":
+        return common.call_impl(lambda: FeeRate.from_sats_per_vbyte(_dec(t[1:])).sats_per_kvbyte)
+    if op == "feerate.from_btc_kvb":
+        return common.call_impl(lambda: FeeRate.from_btc_per_kvbyte(_dec(t[1:])).sats_per_kvbyte)
+    if op == "feerate.vb":
+        return common.call_impl(lambda: _rate(int(t[1])).sats_per_vbyte, render=_render_dec)
     return "bad-op"
 
 
@@ -285,7 +321,272 @@ def _o_funding(w):
     return ok, f"{line} vout={vout} in={total_in} seen={est.seen}"
 
 
+MAX_SATS = 2_100_000_000_000_000
+
+# ---------------------------------------------------------------- sizes of real transactions and blocks
+def _rand_tx(rng, shape):
+    """a transaction whose counts / script lengths sit on the CompactSize boundaries named by `shape`."""
+    from btclib.script import Witness
+    n_in, n_out, sig_len, spk_len, wit = shape
+    segwit = wit is not None
+    vin = []
+    for i in range(n_in):
+        w = Witness()
+        if segwit and (i == 0 or rng.random() < 0.5):
+            w = Witness([bytes(k) for k in wit])
+        vin.append(TxIn(OutPoint(rng.getrandbits(256).to_bytes(32, "big"), rng.randrange(4)),
+                        bytes([0x51]) * (sig_len if i == 0 else rng.choice([0, 1, 107])), 0xFFFFFFFF, w,
+                        check_validity=False))
+    vout = [TxOut(rng.randrange(0, 10**8), bytes([0x51]) * (spk_len if j == 0 else rng.choice([0, 22, 25, 34])),
+                  check_validity=False) for j in range(n_out)]
+    return Tx(rng.choice([1, 2]), rng.choice([0, 500000]), vin, vout, check_validity=False)
+
+
+def _tx_shape(w):
+    return (w["n_in"], w["n_out"], w["sig_len"], w["spk_len"], w["wit"])
+
+
+def _sizes_ok(obj, what):
+    total = obj.serialize(include_witness=True, check_validity=False)
+    stripped = obj.serialize(include_witness=False, check_validity=False)
+    weight = 3 * len(stripped) + len(total)
+    ok = (obj.size == len(total) and obj._serialized_size(include_witness=False) == len(stripped)
+          and obj.weight == weight and obj.vsize == -(-weight // 4)
+          and all(isinstance(v, int) and not isinstance(v, bool) for v in (obj.size, obj.weight, obj.vsize)))
+    return ok, (f"{what}: size={obj.size} len={len(total)} stripped={len(stripped)} weight={obj.weight} "
+                f"(3*stripped+total={weight}) vsize={obj.vsize}")
+
+
+def _o_size_tx(w):
+    import random
+    tx = _rand_tx(random.Random(w["seed"]), _tx_shape(w))
+    ok, d = _sizes_ok(tx, f"tx {_tx_shape(w)}")
+    back = Tx.parse(tx.serialize(include_witness=True, check_validity=False), check_validity=False)
+    return ok and back.size == tx.size and back.weight == tx.weight, d
+
+
+def _o_size_block(w):
+    import random
+    from btclib.block import Block
+    rng = random.Random(w["seed"])
+    base = _BLOCK170()
+    txs = [_rand_tx(rng, (1, 1, rng.choice([0, 72, 107]), 25, [1, 33] if rng.random() < 0.4 else None))
+           for _ in range(w["n_tx"] - 1)]
+    big = _rand_tx(rng, (w["n_in"], 2, 107, 25, [72, 33] if w["segwit"] else None))
+    blk = Block(base.header, [base.transactions[0], *txs[:w["n_tx"] - 1], big][:max(1, w["n_tx"])],
+                check_validity=False)
+    ok, d = _sizes_ok(blk, f"block n_tx={len(blk.transactions)}")
+    hdr = 80
+    from btclib import var_int
+    tx_sum = sum(t.size for t in blk.transactions)
+    ok = ok and blk.size == hdr + len(var_int.serialize(len(blk.transactions))) + tx_sum
+    ok = ok and blk.stripped_size == len(blk.serialize(include_witness=False, check_validity=False))
+    return ok, d
+
+
+_B170 = []
+
+
+def _BLOCK170():
+    if not _B170:
+        from btclib.block import Block
+        with open("/repo/tests/block/_data/block_170.bin", "rb") as f:
+            _B170.append(Block.parse(f.read(), check_validity=False))
+    return _B170[0]
+
+
+# ---------------------------------------------------------------- estimate >= actual, on signed transactions
+XPRV_ROOT = ("xprv9s21ZrQH143K3GJpoapnV8SFfukcVBSfeCficPSGfubmSFDxo1kuHnLisriDvSnRR"
+             "uL2Qrg5ggqHKNVpxR86QEC8w35uxmGoggxtQTPvfUu")
+TEMPLATES = ["pkh(@1)", "wpkh(@2)", "sh(wpkh(@3))", "tr(@4)", "pk(@1)", "multi(2,@1,@2)", "multi(1,@1,@2,@3)",
+             "sh(multi(2,@1,@2,@3))", "sh(multi(3,@1,@2,@3))", "wsh(multi(2,@1,@2,@3))", "wsh(multi(1,@3,@2))",
+             "sh(wsh(multi(1,@1,@2)))", "sh(wsh(multi(2,@1,@2,@3)))", "wsh(pk(@1))", "sh(pk(@1))", "sh(wsh(pk(@2)))",
+             "wsh(pkh(@1))", "sh(pkh(@1))"]
+_SIGNER = {}
+
+
+def _signer():
+    if not _SIGNER:
+        from btclib.psbt_signer import SoftwareSigner, export_account
+        sg = SoftwareSigner(XPRV_ROOT)
+        keys = {}
+        for tag, purpose in (("@1", 44), ("@2", 84), ("@3", 49), ("@4", 86)):
+            txt = str(export_account(sg, f"m/{purpose}h/0h/0h")[0])
+            keys[tag] = txt[txt.index("["):txt.rindex("*") + 1]
+        _SIGNER.update(signer=sg, keys=keys, desc={})
+    return _SIGNER
+
+
+def _descriptor(tmpl):
+    from btclib.descriptors import parse
+    S = _signer()
+    if tmpl not in S["desc"]:
+        txt = tmpl
+        for k, v in S["keys"].items():
+            txt = txt.replace(k, v)
+        S["desc"][tmpl] = parse(txt)
+    return S["desc"][tmpl]
+
+
+def _o_estimate(w):
+    """Psbt.estimated_weight / estimated_vsize of the unsigned psbt never below what the library's own
+    signer + finalizer + extractor produce; input i spends TEMPLATES[t] at address index k."""
+    from btclib.psbt.psbt import extract_tx, finalize
+    from btclib.psbt.psbt_out import PsbtOut
+    from btclib.psbt_signer import request_signatures
+    S = _signer()
+    ins, descs = [], []
+    for i, (t, k, sht) in enumerate(w["inputs"]):
+        d = _descriptor(TEMPLATES[t])
+        prev_tx = Tx(vin=[TxIn(OutPoint(bytes([i + 1]) * 32, i))], vout=[TxOut(100_000 + i, d.script_pub_key(k))])
+        ins.append(PsbtIn(non_witness_utxo=prev_tx, previous_tx_id=prev_tx.id, output_index=0,
+                          sig_hash_type=sht or None))
+        descs.append((d, k))
+    outs = [PsbtOut(amount=1000 + j, script_pub_key=PAY.script) for j in range(w["n_out"])]
+    psbt = Psbt(2, ins, outs, 0, {}, fallback_lock_time=0)
+    for i, (d, k) in enumerate(descs):
+        psbt = d.update_psbt_input(psbt, i, k)
+    est_w, est_v = psbt.estimated_weight, psbt.estimated_vsize
+    tx = extract_tx(finalize(request_signatures(S["signer"], psbt)))
+    actual = len(tx.serialize(include_witness=True, check_validity=False)) + 3 * len(
+        tx.serialize(include_witness=False, check_validity=False))
+    ok = est_w >= actual == tx.weight and est_v >= tx.vsize and est_v == -(-est_w // 4)
+    # and not wastefully above: at most 1 byte per signature slack (71/72) plus unused multisig slots is expected,
+    # a whole missing element is not
+    return ok, f"{[TEMPLATES[t] for t, _, _ in w['inputs']]} est={est_w} actual={actual} vsize {est_v}>={tx.vsize}"
+
+
+
+def _o_amount_roundtrip(w):
+    s_ = w["s"]
+    try:
+        b = btc_from_sats(s_)
+    except Exception as e:  # noqa: BLE001
+        ok = common.err_class(e) == "value" and not 0 <= s_ <= MAX_SATS
+        return ok, f"btc_from_sats({s_}) raised {type(e).__name__}"
+    if not 0 <= s_ <= MAX_SATS:
+        return False, f"btc_from_sats({s_}) accepted: {b}"
+    back = sats_from_btc(b)
+    exact = Fraction(b) == Fraction(s_, 10**8) and b == b.normalize() and -b.as_tuple().exponent <= 8
+    via_str = sats_from_btc(str(b)) == s_ and sats_from_btc(format(b, "f")) == s_
+    return back == s_ and exact and via_str and isinstance(back, int), f"s={s_} btc={b!r} back={back}"
+
+
+def _scaled_ref(x, k, max_value):
+    """(known, value): x·10^k as an int when x spells a finite decimal for which that is a whole number in
+    0..max_value (None = unbounded), else None — by digit arithmetic only (no 10^huge is ever built)."""
+    try:
+        ref = Decimal(str(x))
+    except Exception:  # noqa: BLE001
+        return None
+    if not ref.is_finite():
+        return None
+    sign, digits, exp = ref.as_tuple()
+    c = int("".join(map(str, digits)) or "0")
+    if c == 0:
+        return 0
+    while c % 10 == 0:
+        c //= 10
+        exp += 1
+    if sign or exp + k < 0:
+        return None
+    if max_value is not None and exp + k > 40:
+        return None
+    if exp + k > 2000:
+        raise OverflowError("reference refuses to build 10^%d" % (exp + k))
+    v = c * 10 ** (exp + k)
+    return v if max_value is None or v <= max_value else None
+
+
+def _o_amount_spelling(w):
+    """any spelling: accepted iff it denotes a whole number of satoshi in the money range, and then exactly that."""
+    x = w["x"]
+    want = _scaled_ref(x, 8, MAX_SATS)
+    try:
+        got = sats_from_btc(x)
+    except Exception as e:  # noqa: BLE001
+        return (common.err_class(e) == "value" and want is None), f"sats_from_btc({x!r}) raised {type(e).__name__}, want {want}"
+    return got == want and isinstance(got, int) and not isinstance(got, bool), f"sats_from_btc({x!r}) = {got}, want {want}"
+
+
+def _o_feerate_units(w):
+    x = w["x"]
+    want = _scaled_ref(x, 3, None)
+    try:
+        got = FeeRate.from_sats_per_vbyte(x).sats_per_kvbyte
+    except Exception as e:  # noqa: BLE001
+        return (common.err_class(e) == "value" and want is None), f"from_sats_per_vbyte({x!r}) raised {type(e).__name__}, want {want}"
+    if got != want:
+        return False, f"from_sats_per_vbyte({x!r}) = {got}, want {want}"
+    if got >= 10**25:
+        return True, "rate beyond the default decimal precision: the way back is checked by feerate.context"
+    back = FeeRate(sats_per_kvbyte=got).sats_per_vbyte
+    ok = Fraction(back) * 1000 == got and FeeRate.from_sats_per_vbyte(back).sats_per_kvbyte == got
+    return ok, f"from_sats_per_vbyte({x!r}) = {got}, want {want}, back {back}"
+
+
+def _o_bounded_time(w):
+    """a 12-character quote must not cost unbounded time or memory (run in a child: 1 GiB, 10 s)."""
+    import subprocess
+    code = ("import resource,sys;resource.setrlimit(resource.RLIMIT_AS,(2**30,2**30));"
+            "from btclib.fee import FeeRate;from btclib.exceptions import BTClibValueError\n"
+            "try:\n FeeRate.from_sats_per_vbyte(sys.argv[1]);print('ok')\n"
+            "except BTClibValueError: print('refused')\n"
+            "except BaseException as e: print('foreign', type(e).__name__)")
+    try:
+        p = subprocess.run(["/venv/bin/python", "-c", code, w["x"]], capture_output=True, timeout=10)
+        out = p.stdout.decode().strip().split("\n")[-1] if p.stdout else f"exit {p.returncode}"
+    except subprocess.TimeoutExpired:
+        out = "timeout"
+    return out in ("ok", "refused"), f"FeeRate.from_sats_per_vbyte({w['x']!r}): {out}"
+
+
+def _o_amount_glue(w):
+    bad = {"bool": True, "float": 1.5, "str": "12", "bytes": b"\x01", "list": [1], "inf": float("inf"),
+           "nan": float("nan"), "neg": -1, "big": MAX_SATS + 1}[w["bad"]]
+    want = {"bool": "type", "float": "type", "str": "type", "bytes": "value", "list": "type", "inf": "value",
+            "nan": "value", "neg": "value", "big": "value"}[w["bad"]]
+    try:
+        out = valid_sats_amount(bad)
+    except Exception as e:  # noqa: BLE001
+        return common.err_class(e) == want, f"valid_sats_amount({bad!r}) raised {type(e).__name__}, want {want}"
+    return False, f"valid_sats_amount({bad!r}) accepted: {out!r}"
+
+
+def _o_amount_context(w):
+    """the conversions are exact whatever decimal context the caller has set (they are stated to be exact)."""
+    s_, prec = w["s"], w["prec"]
+    with localcontext() as c:
+        c.prec = prec
+        try:
+            b = btc_from_sats(s_)
+            back = sats_from_btc(format(Decimal(s_).scaleb(-8), "f"))
+        except Exception as e:  # noqa: BLE001
+            return False, f"prec={prec}: s={s_} raised {type(e).__name__} ({common.err_class(e)})"
+    ok = Fraction(b) == Fraction(s_, 10**8) and back == s_
+    return ok, f"prec={prec}: btc_from_sats({s_}) = {b!r}, sats_from_btc back = {back}"
+
+
+def _o_feerate_context(w):
+    k, prec = w["k"], w["prec"]
+    with localcontext() as c:
+        if prec:
+            c.prec = prec
+        v = FeeRate(sats_per_kvbyte=k).sats_per_vbyte
+    return Fraction(v) * 1000 == k, f"prec={prec or 'default'}: FeeRate({k}).sats_per_vbyte = {v!r}"
+
+
 ORACLES = {
+    "size.tx": _o_size_tx,
+    "size.block": _o_size_block,
+    "psbt.estimate": _o_estimate,
+    "amount.roundtrip": _o_amount_roundtrip,
+    "amount.spelling": _o_amount_spelling,
+    "amount.glue": _o_amount_glue,
+    "amount.context": _o_amount_context,
+    "feerate.units": _o_feerate_units,
+    "feerate.context": _o_feerate_context,
+    "feerate.bounded_time": _o_bounded_time,
     "funding.invariants": _o_funding,
     "fee.ceiling": _o_fee_ceiling,
     "fee.monotone": _o_fee_monotone,
@@ -432,6 +733,115 @@ def _run_funding(ctx):
             raise common.HarnessError(f"funding generator left class {cls} empty")
 
 
+def _rand_dec(rng, scale):
+    """Decimals around the acceptance boundaries of a ×10^scale conversion."""
+    r = rng.random()
+    if r < 0.04:
+        return Decimal(rng.choice(["NaN", "Infinity", "-Infinity", "sNaN"]))
+    sign = 1 if rng.random() < 0.08 else 0
+    if r < 0.3:
+        exp = rng.choice([-scale - 2, -scale - 1, -scale, -scale + 1, -3, -1, 0, 1, 2, 7, 8, 30, -30, 400, -400])
+        coeff = rng.choice([0, 1, 10, 100, 21, 2099999997690000, 21 * 10**14, 21 * 10**14 + 1, rng.getrandbits(20)])
+    elif r < 0.6:
+        coeff = rng.randrange(0, 21 * 10**14 + 3)
+        exp = -scale
+        k = rng.randrange(0, 6)     # same value with trailing zeros / extra digits
+        if rng.random() < 0.5:
+            coeff, exp = coeff * 10**k, exp - k
+        else:
+            coeff, exp = coeff * 10**k + rng.choice([0, 0, 1]), exp - k
+    else:
+        coeff = rng.getrandbits(rng.choice([1, 4, 10, 30, 51, 60]))
+        exp = rng.randrange(-12, 10)
+    return Decimal((sign, tuple(int(c) for c in str(coeff)), exp))
+
+
+SPELLINGS = ["0", "-0", "0.0", "1", "1.5", "0.00000001", "0.000000001", "0.123456789", "1.000000000", "21000000",
+             "21000000.00000001", "20999999.99999999", "2.1e7", "2.1E+7", "2.10000001e7", "1e-8", "1e-9", "-1e-8",
+             " 1.5 ", "1_0.5", "1,5", "abc", "", "NaN", "Infinity", "-Infinity", "0e-50", "0e50", "1e-400", "1e400",
+             "1e-999999999", "1e999999999", "0e999999999", "٠.٥", "+1.5", ".5", "5.", "0x10", "1/2", "1e", "--1"]
+
+
+def _run_amount(ctx):
+    rng = ctx.rng
+    sats = [0, 1, 9, 10, 99_999_999, 100_000_000, 100_000_001, 10**10, 2099999997690000, MAX_SATS - 1, MAX_SATS,
+            MAX_SATS + 1, -1, 2 * MAX_SATS, 2**53, 2**63, 2**64]
+    sats += [rng.randrange(0, MAX_SATS + 1) for _ in range(ctx.n(800))]
+    sats += [rng.randrange(0, 10**rng.randrange(1, 16)) * 10**rng.randrange(0, 9) for _ in range(ctx.n(400))]
+    lines = []
+    for v in sats:
+        lines.append(f"amount.btc_from_sats {v}")
+        ctx.check("amount.roundtrip", {"s": v}, nontrivial=0 <= v <= MAX_SATS)
+    ctx.stream("amount.btc_from_sats", lines)
+
+    l1, l2, l3 = [], [], []
+    for _ in range(ctx.n(1500)):
+        l1.append("amount.sats_from_btc " + _dec_tokens(_rand_dec(rng, 8)))
+        l2.append("feerate.from_vb " + _dec_tokens(_rand_dec(rng, 3)))
+        l3.append("feerate.from_btc_kvb " + _dec_tokens(_rand_dec(rng, 8)))
+    ctx.stream("amount.sats_from_btc", l1)
+    ctx.stream("feerate.from_vb", l2)
+    ctx.stream("feerate.from_btc_kvb", l3)
+    ks = [0, 1, 10, 100, 999, 1000, 1001, 1500, 3000, 10**6, 10**24 + 1] + [G._nat(rng, 60) for _ in range(ctx.n(600))]
+    ctx.stream("feerate.vb", [f"feerate.vb {k}" for k in ks])
+
+    xs = list(SPELLINGS)
+    for _ in range(ctx.n(600)):
+        d = _rand_dec(rng, 8)
+        xs.append(rng.choice([str(d), format(d, "f") if d.is_finite() and abs(d.as_tuple().exponent) < 50 else str(d),
+                              format(d, "E") if d.is_finite() else str(d)]))
+    for x in xs:
+        ctx.check("amount.spelling", {"x": x})
+        if "999999999" not in x:
+            ctx.check("feerate.units", {"x": x})
+    ctx.check("feerate.bounded_time", {"x": "1e999999999"}, key="feerate.huge-exponent")
+    for x in (1.5, 0.1, 1e-8, 1e-9, 2.1e7, 3, Decimal("0.5"), 10**7, float("nan"), float("inf")):
+        ctx.check("amount.spelling", {"x": x})
+        ctx.check("feerate.units", {"x": x})
+    for bad in ("bool", "float", "str", "bytes", "list", "inf", "nan", "neg", "big"):
+        ctx.check("amount.glue", {"bad": bad})
+    # exactness must not depend on the caller's decimal context (a defect found here: it does)
+    for prec in (6, 12):
+        for v in (123456789, 2099999997690000, 50_000_000):
+            ctx.check("amount.context", {"s": v, "prec": prec}, key="amount.decimal-context")
+    for k, prec in ((1234567891, 6), (1500, 6), (10**30 + 1, 0)):
+        ctx.check("feerate.context", {"k": k, "prec": prec}, key="feerate.decimal-context")
+
+
+def _run_sizes(ctx):
+    rng = ctx.rng
+    edge = [0, 1, 2, 75, 76, 252, 253, 254, 255, 256, 300]
+    for _ in range(ctx.n(80, 1500)):
+        wit = None
+        if rng.random() < 0.6:
+            wit = [rng.choice([0, 1, 64, 65, 72, 252, 253, 520]) for _ in range(rng.choice([0, 1, 2, 3, 252, 253]))]
+        w = {"seed": rng.getrandbits(32), "n_in": rng.choice([1, 2, 3, 252, 253, 254]),
+             "n_out": rng.choice([0, 1, 2, 252, 253, 300]), "sig_len": rng.choice(edge + [65535, 65536]),
+             "spk_len": rng.choice(edge + [10000, 10001, 65535, 65536]), "wit": wit}
+        ctx.check("size.tx", w)
+        ctx.count("size.tx.class", "segwit" if wit is not None else "legacy")
+    for _ in range(ctx.n(12, 120)):
+        ctx.check("size.block", {"seed": rng.getrandbits(32), "n_tx": rng.choice([1, 2, 3, 252, 253, 254, 300]),
+                                 "n_in": rng.choice([1, 252, 253]), "segwit": rng.random() < 0.6})
+
+
+def _run_estimate(ctx):
+    rng = ctx.rng
+    # every template alone (two address indexes, default and explicit sighash), then random mixes
+    for t in range(len(TEMPLATES)):
+        for k in (0, rng.randrange(1, 50)):
+            ctx.check("psbt.estimate", {"inputs": [[t, k, 0]], "n_out": 1})
+        ctx.check("psbt.estimate", {"inputs": [[t, rng.randrange(50), 1]], "n_out": 2})
+        ctx.count("estimate.template", TEMPLATES[t])
+    for _ in range(ctx.n(300, 6000)):
+        n = rng.choice([1, 2, 3, 5])
+        ins = [[rng.randrange(len(TEMPLATES)), rng.randrange(200), rng.choice([0, 0, 1])] for _ in range(n)]
+        ctx.check("psbt.estimate", {"inputs": ins, "n_out": rng.choice([1, 2, 3])})
+
+
 def run(ctx):
     _run_fee(ctx)
     _run_funding(ctx)
+    _run_amount(ctx)
+    _run_sizes(ctx)
+    _run_estimate(ctx)
